@@ -4,7 +4,8 @@
    spec column  : must=<targets> bp=<0|1>  the wait targets whose calls must have completed at quiescence after the
                   script (`*` = every target, the connection is lost; `n` = waits on nothing the peer controls; `<id>` =
                   receive side of the stream; `w<id>` = send side (peer credit; ended by STOP_SENDING); `wc` = credit for
-                  opening / writing h3's own streams); bp=0: no credit is withheld, every send-side target must complete *)
+                  opening / writing h3's own streams; `ctl` = the peer's control stream ended: accept / poll_close / wait_idle must
+                  complete); bp=0: no credit is withheld, every send-side target must complete *)
 let parse_ev (s : string) : pev =
   let n = String.length s in
   if s = "~" then ERun
@@ -12,10 +13,12 @@ let parse_ev (s : string) : pev =
   else if n > 0 && s.[0] = 'X' then ELost
   else if n > 0 && (s.[0] = 'U' || s.[0] = 'B') then EOpen (n_of_string (String.sub s 1 (n - 1)))
   else if n > 0 && (s.[0] = 'G' || s.[0] = 'H' || s.[0] = 'W' || s.[0] = 'D') then ERun
+  else if (n >= 3 && String.sub s 0 3 = "SEG") || s = "ZS" || s = "ZU" then ERun
   else match String.split_on_char ':' s with
     | id :: k :: _ when k = "c" || k = "z" -> EChunk (n_of_string id)
     | [id; "F"] -> EFin (n_of_string id)
     | [id; k] when String.length k > 0 && k.[0] = 'R' -> EReset (n_of_string id)
+    | [_; k] when String.length k > 0 && k.[0] = 'Z' -> ERun
     | [id; "K"] -> EReset (n_of_string id)   (* receive half fails with StreamErrorIncoming::Unknown: terminal like a reset *)
     | [id; k] when String.length k > 0 && k.[0] = 'S' -> EStop (n_of_string id)
     | _ -> failwith ("bad event " ^ s)
@@ -25,6 +28,37 @@ let has_backpressure opts evs_raw =
                         && (match int_of_string_opt (String.sub o 1 (String.length o - 1)) with Some _ -> true | None -> false))
     (String.split_on_char '+' opts)
   || List.exists (fun e -> String.length e > 2 && String.sub e 0 3 = "W*:") evs_raw
+(* the peer's control stream: a stream opened with U<id> whose delivered bytes (up to its terminal event) start with a
+   complete varint of value 0 (the CONTROL stream type, any encoding length) *)
+let control_ids raw =
+  let tbl : (int, Buffer.t * bool ref) Hashtbl.t = Hashtbl.create 8 in
+  let unis = ref [] in
+  List.iter (fun e ->
+    let n = String.length e in
+    if n > 1 && e.[0] = 'U' then (match int_of_string_opt (String.sub e 1 (n - 1)) with Some i -> unis := i :: !unis | None -> ())
+    else match String.split_on_char ':' e with
+      | id :: rest when int_of_string_opt id <> None ->
+          let i = int_of_string id in
+          let (b, fin) = (match Hashtbl.find_opt tbl i with Some x -> x | None -> let x = (Buffer.create 16, ref false) in Hashtbl.add tbl i x; x) in
+          if not !fin then (match rest with
+            | ["c"; h] -> if Buffer.length b < 16 then Buffer.add_string b h
+            | ["z"; z] -> (match String.split_on_char 'x' z with [byte; _] -> if Buffer.length b < 16 then (Buffer.add_string b byte; Buffer.add_string b byte; Buffer.add_string b byte; Buffer.add_string b byte; Buffer.add_string b byte; Buffer.add_string b byte; Buffer.add_string b byte; Buffer.add_string b byte) | _ -> ())
+            | ["F"] | ["K"] -> fin := true
+            | [k] when String.length k > 0 && k.[0] = 'R' -> fin := true
+            | _ -> ())
+      | _ -> ()) raw;
+  List.filter (fun i ->
+    match Hashtbl.find_opt tbl i with
+    | None -> false
+    | Some (b, _) ->
+        let h = Buffer.contents b in
+        let byte k = if String.length h >= 2 * k + 2 then Some (16 * hexval h.[2*k] + hexval h.[2*k+1]) else None in
+        (match byte 0 with
+         | None -> false
+         | Some b0 ->
+             let l = 1 lsl (b0 lsr 6) in
+             let rec all_zero k = if k >= l then true else (match byte k with Some v -> (if k = 0 then v land 0x3f = 0 else v = 0) && all_zero (k + 1) | None -> false) in
+             all_zero 0)) (List.rev !unis)
 let handle ws = match ws with
   | "run" :: _role :: opts :: script :: _ ->
       let raw = if script = "-" then [] else String.split_on_char ',' script in
@@ -38,6 +72,8 @@ let handle ws = match ws with
         if lost evs then "*"
         else String.concat "," ("n" :: (if must_complete evs WConn then ["c"] else [])
                @ (if must_complete_bp bp evs WCredit then ["wc"] else [])
+               (* accept / poll_close / wait_idle read the peer's control stream: they must complete once it ended *)
+               @ (if List.exists (fun id -> must_complete evs (WStream (n_of_int id))) (control_ids raw) then ["ctl"] else [])
                @ List.filter_map (fun id -> if must_complete evs (WStream (n_of_int id)) then Some (string_of_int id) else None) ids
                @ List.filter_map (fun id -> if must_complete_bp bp evs (WSend (n_of_int id)) then Some ("w" ^ string_of_int id) else None) ids) in
       "world=" ^ world ^ " | must=" ^ must ^ " bp=" ^ (if bp then "1" else "0")
